@@ -54,6 +54,7 @@ def gen_case(rnd, kind, cid, maxops, stats, allow_ttl0=True, probe_every=True):
     marks = []          # interesting instants: deadlines, stamp+tick
     cur_ttl = [ttl]
     hot = universe[:]   # keys, biased to a few
+    lastv = {}          # key -> the value it was last handed
 
     def key():
         if rnd.random() < 0.7:
@@ -266,14 +267,21 @@ def gen_case(rnd, kind, cid, maxops, stats, allow_ttl0=True, probe_every=True):
         stats["ops"][name] = stats["ops"].get(name, 0) + 1
         if name == "insert":
             t = ttl_arg()
-            lines.append("op %d insert %d %d %d %d" % (now, t, key(), val(), allow()))
+            k_ = key()
+            # now and then the value the key was last written with: an update that does not change the value is
+            # still an update (a use, a TTL restart)
+            v_ = lastv[k_] if (k_ in lastv and rnd.random() < 0.2) else val()
+            lastv[k_] = v_
+            lines.append("op %d insert %d %d %d %d" % (now, t, k_, v_, allow()))
             note_write(now, t)
         elif name in ("insert_range", "insert_it"):
             ks = keylist()
             items = []
             for k in ks:
                 t = ttl_arg()
-                items.append("%d %d %d" % (t, k, val()))
+                v_ = lastv[k] if (k in lastv and rnd.random() < 0.2) else val()
+                lastv[k] = v_
+                items.append("%d %d %d" % (t, k, v_))
                 note_write(now, t)
             stats["range_len"][str(len(ks))] = stats["range_len"].get(str(len(ks)), 0) + 1
             lines.append(("op %d %s %d %d %s" % (now, name, allow(), len(ks), " ".join(items))).rstrip())
